@@ -44,6 +44,11 @@ start:
 stmt_list:
         stmt_list stmt
             {
+                // good (list-index): the element is taken under a length test
+                if len($1) > 0 {
+                    first := $1[0]
+                    _ = first
+                }
                 if $2 != nil {
                     $$ = append($1, $2)
                 }
